@@ -74,7 +74,7 @@ func (c *Ctx) pathClassRec(v ssa.Value, out classSet, seen map[ssa.Value]bool, d
 		out[classOTHER] = true
 	case *ssa.Call:
 		name := calleeFullName(&x.Call)
-		if cal := x.Call.StaticCallee(); cal != nil && cal == c.F.Chooser {
+		if cal := calleeOf(&x.Call); cal != nil && cal == c.F.Chooser {
 			out[classLOG] = true
 			return
 		}
@@ -112,7 +112,7 @@ func (c *Ctx) pathClassRec(v ssa.Value, out classSet, seen map[ssa.Value]bool, d
 				c.pathClassRec(x.Call.Args[0], out, seen, d+1)
 			}
 		default:
-			if cal := x.Call.StaticCallee(); cal != nil && c.InModule(cal) {
+			if cal := calleeOf(&x.Call); cal != nil && c.InModule(cal) {
 				// a module helper returning a path: union over its returned values
 				for _, r := range returnsOf(cal) {
 					if len(r.Results) > 0 {
@@ -125,7 +125,7 @@ func (c *Ctx) pathClassRec(v ssa.Value, out classSet, seen map[ssa.Value]bool, d
 		}
 	case *ssa.Extract:
 		if call, ok := x.Tuple.(*ssa.Call); ok {
-			if cal := call.Call.StaticCallee(); cal != nil && c.InModule(cal) {
+			if cal := calleeOf(&call.Call); cal != nil && c.InModule(cal) {
 				for _, r := range returnsOf(cal) {
 					if x.Index < len(r.Results) {
 						c.pathClassRec(r.Results[x.Index], out, seen, d+1)
@@ -294,6 +294,7 @@ func (c *Ctx) canonEnvD(v ssa.Value, e env, d int) string {
 // joinLockDir recognises filepath.Join(D, "lock") (under e) and returns D.
 func (c *Ctx) joinLockDir(v ssa.Value, e env) (ssa.Value, bool) {
 	v, e = c.throughPureHelper(v, e)
+	v, e = c.throughObjectField(v, e)
 	call, ok := v.(*ssa.Call)
 	if !ok || calleeFullName(&call.Call) != "path/filepath.Join" {
 		return nil, false
@@ -306,6 +307,43 @@ func (c *Ctx) joinLockDir(v ssa.Value, e env) (ssa.Value, bool) {
 		return nil, false
 	}
 	return resolveEnv(el[0], e), true
+}
+
+// throughObjectField: v (under e) is a field of a store object (l.lockPath, l.path) built by a constructor: the
+// expression the constructor stored, read with the constructor's parameters bound to the arguments of the call that
+// built this particular object.
+func (c *Ctx) throughObjectField(v ssa.Value, e env) (ssa.Value, env) {
+	if u, ok := v.(*ssa.UnOp); ok && u.Op == token.MUL {
+		if fa, isF := u.X.(*ssa.FieldAddr); isF {
+			base := resolveEnv(fa.X, e)
+			if al, isAl := fa.X.(*ssa.Alloc); isAl {
+				// the local copy of a by-value receiver / parameter: the struct this call was handed
+				if w := plainCopyOf(al); w != nil {
+					if rb := resolveEnv(w, e); rb != w {
+						base = rb
+					}
+				}
+			}
+			var os []originVal
+			var okO bool
+			if base != fa.X {
+				os, okO = fieldOfStructValueOrAddr(base, fa.Field, u)
+			} else {
+				os, okO = fieldOrigins(u, 0)
+			}
+			if okO && len(os) == 1 {
+				ne := env{}
+				for k, val := range e {
+					ne[k] = val
+				}
+				for k, val := range os[0].E {
+					ne[k] = resolveEnv(val, e)
+				}
+				v, e = c.throughPureHelper(os[0].V, ne)
+			}
+		}
+	}
+	return v, e
 }
 
 // throughPureHelper: v (under e) is a call to a one-expression module helper (lockPathFor(dir) = Join(dir, "lock"),
@@ -324,7 +362,7 @@ func (c *Ctx) throughPureHelper(v ssa.Value, e env) (ssa.Value, env) {
 		if !ok || call == nil {
 			return v, e
 		}
-		h := call.Call.StaticCallee()
+		h := calleeOf(&call.Call)
 		if h == nil || !c.InModule(h) || h.Blocks == nil || h == c.F.Chooser || c.opaqueHelper(h) || len(h.Blocks) != 1 {
 			return v, e
 		}
@@ -349,8 +387,9 @@ func (c *Ctx) throughPureHelper(v ssa.Value, e env) (ssa.Value, env) {
 // chooserDir recognises chooser(D) (under e) and returns D.
 func (c *Ctx) chooserDir(v ssa.Value, e env) (ssa.Value, bool) {
 	v, e = c.throughPureHelper(v, e)
+	v, e = c.throughObjectField(v, e)
 	call, ok := v.(*ssa.Call)
-	if !ok || call.Call.StaticCallee() != c.F.Chooser || c.F.Chooser == nil || len(call.Call.Args) != 1 {
+	if !ok || calleeOf(&call.Call) != c.F.Chooser || c.F.Chooser == nil || len(call.Call.Args) != 1 {
 		return nil, false
 	}
 	return resolveEnv(call.Call.Args[0], e), true
